@@ -16,10 +16,12 @@ import (
 	"io/ioutil"
 	"math/big"
 	"net"
+	"os"
 	"regexp"
 	"sort"
 	"strings"
 	"sync"
+	"sync/atomic"
 
 	"verif/csnet"
 	"verif/vk"
@@ -39,9 +41,10 @@ import (
 
 type fakePeer struct {
 	cmn.BaseService
-	id   string
-	data map[string]interface{}
-	mu   sync.Mutex
+	id    string
+	polls int32
+	data  map[string]interface{}
+	mu    sync.Mutex
 }
 
 func newFakePeer(id string) *fakePeer {
@@ -49,7 +52,10 @@ func newFakePeer(id string) *fakePeer {
 	p.BaseService = *cmn.NewBaseService(nil, "fakePeer", p)
 	return p
 }
-func (p *fakePeer) ID() string                   { return p.id }
+func (p *fakePeer) ID() string { return p.id }
+
+// IsRunning: the gossip routines poll it once per iteration; the harness grants a bounded number of polls.
+func (p *fakePeer) IsRunning() bool              { return atomic.AddInt32(&p.polls, -1) >= 0 }
 func (p *fakePeer) RemoteAddr() net.Addr         { return &net.TCPAddr{IP: net.IPv4(10, 0, 0, 1), Port: 1} }
 func (p *fakePeer) NodeInfo() p2p.NodeInfo       { return p2p.NodeInfo{} }
 func (p *fakePeer) IsOutbound() bool             { return false }
@@ -617,6 +623,41 @@ func stateChannelMessages() []hostile {
 			}
 		}
 	}
+	// bit arrays whose bit count disagrees with their word count: decodable, never produced by NewBitArray
+	malformed := []struct {
+		name  string
+		bits  int
+		elems int
+	}{{"bits1000/1word", 1000, 1}, {"bits3/5words", 3, 5}, {"bits-5/1word", -5, 1}, {"bits4/0words", 4, 0}, {"bits64/2words", 64, 2}}
+	for _, mf := range malformed {
+		mf := mf
+		ba := func() *cmn.BitArray {
+			b := &cmn.BitArray{Bits: mf.bits, Elems: make([]uint64, mf.elems)}
+			for i := range b.Elems {
+				b.Elems[i] = ^uint64(0)
+			}
+			return b
+		}
+		add(fmt.Sprintf("CommitStep{h+0,header=ours,%s}", mf.name), cs.StateChannel, func(w *world) interface{} {
+			return &cs.CommitStepMessage{Height: w.h, BlockPartsHeader: w.ids[0].PartsHeader, BlockParts: ba()}
+		})
+		for _, t := range []byte{1, 2} {
+			t := t
+			add(fmt.Sprintf("VoteSetBits{h+0,r0,t%d,A,%s}", t, mf.name), cs.VoteSetBitsChannel, func(w *world) interface{} {
+				return &cs.VoteSetBitsMessage{Height: w.h, Round: w.round(), Type: t, BlockID: w.ids[0], Votes: ba()}
+			})
+		}
+		// a proposal-of-lock bit array is only applied for the POL round the peer's own proposal named: proposal first
+		out = append(out, hostile{name: fmt.Sprintf("Proposal{POLRound=r-1,unsigned}+ProposalPOL{%s}", mf.name), ch: cs.DataChannel,
+			msg: func(w *world) interface{} {
+				r := w.round()
+				p := *w.proposal(r, 0, r-1)
+				return &cs.ProposalMessage{Proposal: &p}
+			},
+			follow: func(w *world) []interface{} {
+				return []interface{}{&cs.ProposalPOLMessage{Height: w.h, ProposalPOLRound: w.round() - 1, ProposalPOL: ba()}}
+			}})
+	}
 	add("ProposalHeartbeat{nil}", cs.StateChannel, func(w *world) interface{} { return &cs.ProposalHeartbeatMessage{} })
 	add("ProposalHeartbeat{zero}", cs.StateChannel, func(w *world) interface{} { return &cs.ProposalHeartbeatMessage{Heartbeat: &types.Heartbeat{}} })
 	return out
@@ -746,6 +787,17 @@ func runCase(f *csnet.Fixture, st state, hs []hostile, cont int) outcome {
 	w := newWorld(f)
 	defer w.close()
 	st.prep(w)
+	// the peer is an ordinary connected peer up to now: it has announced that it is at the node's height and round (what
+	// every peer does on connecting and at every step), so the reactor's PeerState is not the all-zero initial one
+	{
+		rs := w.n.CS.GetRoundState()
+		lcr := -1
+		if rs.Height > 1 {
+			lcr = 0
+		}
+		bz := ser.MustEncodeToBytesWithType(&cs.NewRoundStepMessage{Height: rs.Height, Round: rs.Round, Step: cstypes.RoundStepPropose, SecondsSinceStartTime: 0, LastCommitRound: lcr})
+		vk.Catch(func() { w.re.Receive(cs.StateChannel, w.peer, bz) })
+	}
 	before := digest(w)
 	names := []string{}
 	mustIgnore := true
@@ -849,11 +901,22 @@ func runCase(f *csnet.Fixture, st state, hs []hostile, cont int) outcome {
 	}); p {
 		o.viol = [2]string{"later-panic-after:" + strings.Split(names[0], ",")[0] + ":" + normPanic(pv),
 			fmt.Sprintf("in state %s after message(s) %v a later timeout makes the state machine panic: %v", st.name, names, normPanic(pv))}
+		return o
+	}
+	// the reactor's per-peer gossip routines now run against whatever the peer's messages left in its PeerState. They are
+	// the real goroutines: a panic in them is not recovered anywhere and ends the PROCESS (the parent sees the worker die
+	// inside this case).
+	if gossipAfter {
+		atomic.StoreInt32(&w.peer.polls, 15)
+		w.re.VerifGossip(w.peer)
 	}
 	return o
 }
 
 var workerSpec = flag.String("worker", "", "internal: k/N[/from]")
+
+// gossipAfter: run the per-peer gossip routines at the end of every case (off only for bisecting a finding)
+var gossipAfter = os.Getenv("C16_NO_GOSSIP") == ""
 
 func main() {
 	log.Root().SetHandler(log.DiscardHandler())
